@@ -136,12 +136,28 @@ class MacroProcessor:
         i = 0
         n = len(content)
 
+        definition = re.compile(r"\s*macro\s+(\w+)\s*\[")
         while i < n:
+            # A quoted string is text, also when it looks like a macro definition
+            # (a task named "was: macro m [effort 5d]" redefined the macro m)
+            if content[i] in "\"'":
+                closing = content.find(content[i], i + 1)
+                closing = n - 1 if closing < 0 else closing
+                result.append(content[i : closing + 1])
+                i = closing + 1
+                continue
+            if content.startswith("-8<-", i):
+                # ... and so is a rich text block (it may contain a lone apostrophe)
+                closing = content.find("->8-", i + 4)
+                closing = n if closing < 0 else closing + 4
+                result.append(content[i:closing])
+                i = closing
+                continue
             # Look for 'macro' keyword
-            match = re.match(r"\s*macro\s+(\w+)\s*\[", content[i:])
+            match = definition.match(content, i)
             if match:
                 macro_name = match.group(1)
-                start_pos = i + match.end()
+                start_pos = match.end()
 
                 # Find the matching closing bracket
                 bracket_count = 1
